@@ -1,8 +1,65 @@
 import Driver.Util
+import Driver.TxFmt
+import BtcVerif.Model.BlockCheck
+import BtcVerif.Spec.BlockCheck
 
 namespace Driver.C16
-open BtcVerif Driver
+open BtcVerif Driver Driver.TxFmt
 
-def handle (_op : String) (_args : List String) : Option String := none
+def renderUnit (r : Res Unit) : String := Res.render (r.map (fun _ => "ok"))
+
+def parseBool? (s : String) : Option Bool :=
+  if s == "1" then some true else if s == "0" then some false else none
+
+def verdict (b : Bool) : String := if b then "ok" else "err:validation"
+
+/-- classification aid for the known-findings filter only (never compared with the real code):
+    CheckBlock with the per-transaction loop starting at the second transaction, as in D10 -/
+def checkBlockSkipCoinbase (p : Spec.ChainParams) (b : Block) (fPoW fMerkle : Bool) (now : Int) : Res Unit :=
+  Model.BlockCheck.checkBlockWith (fun vtx => Model.BlockCheck.txLoop p vtx.tail 1 [] 0) p b fPoW fMerkle now
+
+def handle (op : String) (args : List String) : Option String :=
+  match op, args with
+  | "c16.checktx", [chain, tx] => some <|
+      match Spec.chainByName? chain, parseTx? tx with
+      | some p, some t => renderUnit (Model.BlockCheck.checkTx p t)
+      | _, _ => badArgs
+  | "c16.spec.checktx", [chain, tx] => some <|
+      match Spec.chainByName? chain, parseTx? tx with
+      | some p, some t => verdict (decide (Spec.BlockCheck.ValidTx p t))
+      | _, _ => badArgs
+  | "c16.checkheader", [chain, now, fpow, hdr] => some <|
+      match Spec.chainByName? chain, parseInt? now, parseBool? fpow, parseHeader? hdr with
+      | some p, some now, some f, some h => renderUnit (Model.BlockCheck.checkBlockHeader p h f now)
+      | _, _, _, _ => badArgs
+  | "c16.spec.checkheader", [chain, now, fpow, hdr] => some <|
+      match Spec.chainByName? chain, parseInt? now, parseBool? fpow, parseHeader? hdr with
+      | some p, some now, some f, some h => verdict (decide (Spec.BlockCheck.ValidHeader p now f h))
+      | _, _, _, _ => badArgs
+  | "c16.checkblock", [chain, now, fpow, fmerkle, blk] => some <|
+      match Spec.chainByName? chain, parseInt? now, parseBool? fpow, parseBool? fmerkle, parseBlock? blk with
+      | some p, some now, some f, some g, some b => renderUnit (Model.BlockCheck.checkBlock p b f g now)
+      | _, _, _, _, _ => badArgs
+  | "c16.spec.checkblock", [chain, now, fpow, fmerkle, blk] => some <|
+      match Spec.chainByName? chain, parseInt? now, parseBool? fpow, parseBool? fmerkle, parseBlock? blk with
+      | some p, some now, some f, some g, some b => verdict (decide (Spec.BlockCheck.ValidBlock p now f g b))
+      | _, _, _, _, _ => badArgs
+  | "c16.skipcb.checkblock", [chain, now, fpow, fmerkle, blk] => some <|
+      match Spec.chainByName? chain, parseInt? now, parseBool? fpow, parseBool? fmerkle, parseBlock? blk with
+      | some p, some now, some f, some g, some b => renderUnit (checkBlockSkipCoinbase p b f g now)
+      | _, _, _, _, _ => badArgs
+  | "c16.sigops", [script] => some <| match parseHex? script with
+      | some s => toString (Model.BlockCheck.sigOpCount s)
+      | none => badArgs
+  | "c16.spec.sigops", [script] => some <| match parseHex? script with
+      | some s => toString (Spec.BlockCheck.sigOps s)
+      | none => badArgs
+  | "c16.txsigops", [tx] => some <| match parseTx? tx with
+      | some t => toString (Model.BlockCheck.legacySigOpCount t)
+      | none => badArgs
+  | "c16.commitidx", [blk] => some <| match parseBlock? blk with
+      | some b => Res.render ((Model.BlockCheck.witnessCommitmentIndex b.vtx).map toString)
+      | none => badArgs
+  | _, _ => none
 
 end Driver.C16
